@@ -233,6 +233,10 @@ def range_ports(
     platform = h.init_platform(platform=platform)
     port_count = int(h.init_number(port_count or 1))
     _check_operator_eq_range(line, platform, port_range)
+    if srcports or dstports:
+        protocol = Ace(line, platform=platform).protocol.name
+        if protocol not in ["tcp", "udp"]:
+            raise ValueError(f"invalid {protocol=} in {line=}, expected tcp or udp to generate ports")
 
     aces_: LAce = []  # result
 
